@@ -1,0 +1,10 @@
+//go:build !verif
+
+package lime
+
+// verifPoint and verifState are instrumentation points used by the external
+// verification harness. Without the "verif" build tag they compile to nothing.
+
+func verifPoint(string) {}
+
+func verifState(*channel, SessionState, SessionState) {}
